@@ -51,7 +51,14 @@ func mk(backend, ttls string, evs []string) string {
 }
 
 func look(n int, tid string) string { return fmt.Sprintf("look:%d:%s", n, hx(tid)) }
-func rem(n int, tid string) string  { return fmt.Sprintf("rem:%d:%s", n, hx(tid)) }
+var remSeq uint64
+
+// rem: two of five removals run under a dead context (cancelled / past its deadline), as at node shutdown
+func rem(n int, tid string) string {
+	remSeq++
+	kind := []string{"rem", "remc", "rem", "remd", "rem"}[remSeq%5]
+	return fmt.Sprintf("%s:%d:%s", kind, n, hx(tid))
+}
 func end(n int, tid string) string  { return fmt.Sprintf("end:%d:%s", n, hx(tid)) }
 
 // gen returns the untimed and the timed (real sleeps) cases.
@@ -207,6 +214,16 @@ func gen(r *vc.Rand, thorough bool) (untimed, timed []job) {
 	}
 	for i := 0; i < nOv; i++ {
 		add(overlapHistory(r, vc.Pick(r, backends)), "gen:overlap-history")
+	}
+
+	// --- 3f. the tunnel ends while the owner's context is already dead (shutdown): the record must go all the same
+	for _, b := range backends {
+		for _, kind := range []string{"remc", "remd"} {
+			rc := genRec(r, "T1", false)
+			s0 := r.Intn(3)
+			add(mk(b, "0,0,0", []string{fmtRec("reg", s0, rc), look((s0+1)%3, "T1"), fmt.Sprintf("%s:%d:%s", kind, s0, hx("T1")),
+				look((s0+1)%3, "T1"), look((s0+2)%3, "T1"), look(s0, "T1"), fmtRec("reg", (s0+1)%3, rc), fmt.Sprintf("%s:%d:%s", kind, (s0+2)%3, hx("T1")), fwd(s0, "T1"), fmt.Sprintf("%s:%d:%s", kind, s0, hx(""))}), "gen:remove-dead-context")
+		}
 	}
 
 	// --- 4. excluded points: strings that are not valid UTF-8 (JSON replaces the bytes)
